@@ -415,6 +415,56 @@ fn c18_format_string_wrong_type() {
     }
 }
 
+// @ob id=C18.k.format_string_flags props=C18 kind=complete tier=quick
+// @clause a string value: sign, alternate form (#) and '=' alignment are rejected as Python rejects them ("... not allowed in string format specifier"); every other combination of fill, alignment, width reaches the padding step once with left default alignment (all fills, alignments, signs, widths; types s and none)
+// @fns FormatSpec::format_string
+#[kani::proof]
+#[kani::unwind(6)]
+#[kani::stub(FormatSpec::format_sign_and_align, fsa_recorder)]
+fn c18_format_string_flags() {
+    let sign_k: u8 = kani::any();
+    kani::assume(sign_k < 4);
+    let sign = match sign_k {
+        0 => None,
+        1 => Some(FormatSign::Plus),
+        2 => Some(FormatSign::Minus),
+        _ => Some(FormatSign::MinusOrSpace),
+    };
+    let align = any_align();
+    let alternate_form: bool = kani::any();
+    let spec = ManuallyDrop::new(FormatSpec {
+        conversion: None,
+        fill: kani::any(),
+        align,
+        sign,
+        alternate_form,
+        width: kani::any(),
+        grouping_option: None,
+        precision: None,
+        format_type: if kani::any() { Some(FormatType::String) } else { None },
+    });
+    let text = Text { s: "ab", chars: 2 };
+    unsafe {
+        FSA_CALLS = 0;
+    }
+    let r = ManuallyDrop::new(spec.format_string(&text));
+    let python_rejects = sign.is_some() || alternate_form || align == Some(FormatAlign::AfterSign);
+    if python_rejects {
+        assert!(matches!(&*r, Err(FormatSpecError::NotAllowed(_))));
+        assert!(unsafe { FSA_CALLS } == 0);
+    } else {
+        assert!(r.is_ok());
+        unsafe {
+            assert!(FSA_CALLS == 1);
+            assert!(FSA_DEFAULT_LEFT);
+            assert!(FSA_SIGN_LEN == 0);
+            assert!(FSA_BYTES == 2);
+        }
+    }
+    kani::cover!(python_rejects);
+    kani::cover!(!python_rejects && spec.fill == Some('0') && align.is_none());
+}
+
 // ---------------------------------------------------------------------------------------------
 // C20: str.format template splitting
 
@@ -673,7 +723,8 @@ fn grouping_case(mag: &'static str, prefix: &'static str) {
             assert!(AMS_LEN == mag_len);
             assert!(AMS_SEP == if spec.grouping_option == Some(FormatGrouping::Comma) { ',' } else { '_' });
             assert!(AMS_INTER == if ft_k == 2 || ft_k == 3 { 4 } else { 3 });
-            let zero_padded = fill == Some('0') && align == Some(FormatAlign::AfterSign);
+            // sign-aware zero padding: the 0 flag (a '0' fill without an alignment - an explicit fill always has one) or '0='
+            let zero_padded = fill == Some('0') && (align.is_none() || align == Some(FormatAlign::AfterSign));
             let expect = match width {
                 Some(w) if zero_padded && w as i32 - plen as i32 > mag_len as i32 => w as i32 - plen as i32,
                 _ => mag_len as i32,
@@ -686,7 +737,7 @@ fn grouping_case(mag: &'static str, prefix: &'static str) {
 }
 
 // @ob id=C18.k.grouping_digit_count props=C18 kind=complete tier=quick
-// @clause ',' and '_' grouping at the right interval with width-driven zero padding: the number of digit positions handed to the grouping step is the magnitude's own length, except for sign-aware zero padding (fill '0' with '=' alignment, which is what the 0 flag means), where it is max(width - len(sign and base prefix), length); the separator and interval are those of the spec; without a grouping option the magnitude is returned untouched (all widths <= 1000, fills, alignments, types; magnitude/prefix pairs "7"/"", "1234"/"", "1234"/"-", "1234"/"-0x", "12"/"0x" - the function only uses their lengths)
+// @clause ',' and '_' grouping at the right interval with width-driven zero padding: the number of digit positions handed to the grouping step is the magnitude's own length, except for sign-aware zero padding (the 0 flag, or fill '0' with '=' alignment), where it is max(width - len(sign and base prefix), length); the separator and interval are those of the spec; without a grouping option the magnitude is returned untouched (all widths <= 1000, fills, alignments, types; magnitude/prefix pairs "7"/"", "1234"/"", "1234"/"-", "1234"/"-0x", "12"/"0x" - the function only uses their lengths)
 // @fns FormatSpec::add_magnitude_separators FormatSpec::get_separator_interval
 #[kani::proof]
 #[kani::unwind(6)]
